@@ -167,6 +167,9 @@ func linScenarios() []linScenario {
 		{"at-hybrid-revoke", []LinOp{o("CreateAT", 1, 1), o("CreateAT", 2, 1)}, [][]LinOp{{o("RevokeAT", 0, 1)}, {o("GetAT", 1, 0), o("GetAT", 2, 0)}, {o("DeleteAT", 2, 0), o("GetAT", 2, 0)}}},
 		{"par-once", []LinOp{o("CreatePAR", 1, 1)}, [][]LinOp{{o("GetPAR", 1, 0), o("DeletePAR", 1, 0)}, {o("GetPAR", 1, 0), o("DeletePAR", 1, 0)}, {o("GetPAR", 1, 0)}}},
 		{"pkce-oidc", []LinOp{o("CreatePKCE", 1, 1), o("CreateOIDC", 1, 1)}, [][]LinOp{{o("GetPKCE", 1, 0), o("DeletePKCE", 1, 0)}, {o("DeleteOIDC", 1, 0), o("GetOIDC", 1, 0)}, {o("GetOIDC", 1, 0), o("GetPKCE", 1, 0)}}},
+		// every pair of methods that takes two mutexes runs against each other (a lock-order inversion deadlocks here)
+		{"create-vs-revoke", []LinOp{o("CreateAT", 1, 1), o("CreateRT", 1, 1)}, [][]LinOp{{o("CreateAT", 2, 1), o("CreateRT", 2, 1)}, {o("RevokeRT", 0, 1), o("RevokeAT", 0, 1)}, {o("RotateRT", 1, 1), o("GetRT", 2, 0)}}},
+		{"dev-create-invalidate", nil, [][]LinOp{{o("CreateDev", 1, 1), o("GetDev", 1, 0)}, {o("InvalidateDev", 1, 0), o("GetDev", 1, 0)}, {o("CreateDev", 2, 2), o("InvalidateDev", 2, 0)}}},
 		{"device", []LinOp{o("CreateDev", 1, 1)}, [][]LinOp{{o("GetDev", 1, 0), o("InvalidateDev", 1, 0)}, {o("GetDev", 1, 0), o("InvalidateDev", 1, 0)}, {o("GetDev", 1, 0)}}},
 	}
 }
